@@ -455,6 +455,11 @@ def c07(tier, seed):
             for n in range(0, 4 if tier == "quick" else 6):
                 jobs.append(job("HSpecOpener", [n, w, ctx], witness_every=30))
     c.run_group("T-openers", SPECXSS, jobs, expect_labels=["checked"])
+    jobs = []
+    for which in range(7):
+        for n in range(0, 5 if tier == "quick" else 7):
+            jobs.append(job("HDecodeBig", [n, which], witness_every=10))
+    c.run_group("T-decoder-big-values", URL, jobs, expect_labels=["checked"])
     c.assumptions.append("text that reaches a Unicode case-folding call is ASCII (other paths are closed as excluded and counted)")
     return c.finish("model_checking", "implementation vs independently written reference (spec/h5tok.go): token streams from the 5 start contexts (inputs <= %d), from each of the 22 states at offsets 0/1 (inputs <= %d), context verdicts (inputs <= %d), IsXSS (inputs <= %d), classifiers on free strings <= %d" % (NW + 1, NS, NW, NX, NC),
                     {"W_free_bytes": NW, "state_free_bytes": NS, "classifier_free_bytes": NC, "api_free_bytes": NX})
@@ -600,9 +605,20 @@ def c09(tier, seed):
     PB, SL = 48, 96  # frozen constants: abstract cost per byte, additive slack (measured worst cases: 18.2 per byte, +99)
     K = 16 if tier == "quick" else 24
     timing_log = []
+    pump_log = []
 
     def confirm(v, nat_res, r):
         msg = v["msg"]
+        if "call depth" in msg:
+            obs = dict((o[0], o[1]) for o in (v.get("obs") or []))
+            if "unit" not in obs:
+                return False
+            if len(pump_log) >= 3:
+                return None
+            unit = bytes.fromhex(obs["unit"])
+            got, info = c.nat.pump(unit, prefixes=(bytes.fromhex(obs.get("pre", "")),), lens=(len(unit),))
+            pump_log.append({"input": v["text"], "confirmed": got, "info": info})
+            return got
         if "cost" in msg or "doubling" in msg:
             obs = dict((o[0], o[1]) for o in (v.get("obs") or []))
             if "unit" not in obs:
@@ -645,6 +661,7 @@ def c09(tier, seed):
     jobs += wjobs("HCostURL", NUR, extra=[24, 64], partition=XSS_PARTS, split_from=5, safety=True)
     c.run_group("U-units", COST, jobs, expect_labels=["checked"], confirm=confirm)
     c.extra_cov["native_timing_runs"] = timing_log
+    c.extra_cov["native_pump_runs"] = pump_log
     c.extra_cov["cost_model"] = "abstract cost = input bytes examined: one unit per byte scanned by IndexByte/Index/Contains/HasPrefix (up to and including the match), per byte compared by string ==, copied by + / ToUpper / ToLower / ReplaceAll / copy, per explicit s[i], per key byte of a map look-up"
     c.assumptions.append("abstract cost model, not wall-clock time; constants frozen: %d per byte, slack %d, doubling ratio <= 2.25" % (PB, SL))
     return c.finish("other", "worst-case abstract cost over all feasible paths: 68 repetition families (unit^k vs unit^2k, k=%d, with 0/1 free bytes in the unit, 2-4 context prefixes), every 1- and 2-byte free unit for IsSQLi and the 5 XSS contexts, and per-call bounds for the string scanner (<= %d bytes), scan steps, every tokenizer state and the URL matcher" % (K, NS),
